@@ -42,8 +42,15 @@ def build(scratch):
     methods.append(ex.fn(VM, "call_with_args"))
     tco = ex.match_arm_block(VM, r"op_code: OpCode::TCOJMP,\s*payload_size,\s*\.\.\s*\}")
     methods.append("/// D6: body of the `OpCode::TCOJMP` arm of VmCore::vm, wrapped into a method (the arm binds `payload_size`)\n    fn arm_tcojmp(&mut self, payload_size: u24) -> Result<()> " + "{\n        " + tco + "\n        Ok(())\n    }")
+    for (opn, fname, binds) in [("IF", "arm_if", True), ("JMP", "arm_jmp", True), ("POPSINGLE", "arm_popsingle", False)]:
+        pat = r"op_code: OpCode::" + opn + (r",\s*payload_size,\s*\.\.\s*\}" if binds else r",\s*\.\.\s*\}")
+        body = ex.match_arm_block(VM, pat)
+        methods.append(f"/// D6: body of the `OpCode::{opn}` arm of VmCore::vm, wrapped into a method" + (" (the arm binds `payload_size`)" if binds else "")
+                       + f"\n    fn {fname}(&mut self" + (", payload_size: u24" if binds else "") + ") -> Result<()> {\n        " + body + "\n        Ok(())\n    }")
     arm = ex.match_arm_block(VM, r"op_code: OpCode::SUBIMMEDIATE,\s*\.\.\s*\}")
     methods.append("/// D6: body of the `OpCode::SUBIMMEDIATE` arm of VmCore::vm, wrapped into a method\n    fn arm_subimmediate(&mut self) -> Result<()> " + "{\n        " + arm + "\n        Ok(())\n    }")
+    free_fns = [ex.fn(VM, "let_end_scope_handler"), ex.fn(VM, "let_end_scope_handler_with_payload"),
+                "impl SteelVal {\n    " + ex.fn("crates/steel-core/src/rvals.rs", "is_truthy") + "\n}"]
     ins = ["#[derive(Copy, Clone, Debug, PartialEq, Eq, Hash)] // real: + Serialize, Deserialize\n" + ex.item(INSTR, "struct", "DenseInstruction"),
            "#[derive(Copy, Clone, PartialEq, PartialOrd, Eq, Ord, Hash, Debug)]\n#[allow(non_camel_case_types)]\n#[repr(transparent)]\n" + ex.item(INSTR, "struct", "u24"),
            ex.impl_block(INSTR, r"impl Add for u24"), ex.impl_block(INSTR, r"impl u24"), ex.impl_block(INSTR, r"impl DenseInstruction")]
@@ -74,14 +81,14 @@ unexpected_cfgs = {{ level = "allow", check-cfg = ['cfg(kani)'] }}
     write(os.path.join(crate, "src/prelude.rs"), prelude)
     write(os.path.join(crate, "src/x_instructions.rs"), allow + "use crate::prelude::OpCode;\nuse core::ops::Add;\n\n" + "\n\n".join(ins) + "\n")
     write(os.path.join(crate, "src/x_vm.rs"), allow + "use crate::prelude::*;\nuse crate::prelude::{format, stop, log};\nuse num_traits::{CheckedAdd, CheckedMul, CheckedSub};\n\n" + "\n\n".join(consts) + "\n\n" + "\n\n".join(frame)
-          + "\n\nimpl<'a> VmCore<'a> {\n    " + "\n\n    ".join(methods) + "\n}\n\n#[cfg(kani)]\n#[path = \"harness.rs\"]\nmod harness;\n")
+          + "\n\nimpl<'a> VmCore<'a> {\n    " + "\n\n    ".join(methods) + "\n}\n\n" + "\n\n".join(free_fns) + "\n\n#[cfg(kani)]\n#[path = \"harness.rs\"]\nmod harness;\n")
     write(os.path.join(crate, "src/harness.rs"), harness)
     write(os.path.join(crate, "src/lib.rs"), "#![allow(dead_code, unused_imports, unused_macros)]\n#[macro_use]\npub mod prelude;\n"
           "pub mod core { pub mod instructions { pub use crate::prelude::core_instructions::pretty_print_dense_instructions; } }\n"
           "pub mod x_instructions;\npub mod x_vm;\n")
     meta = {"unit": NAME, "engine": "E2: verbatim item extraction into a mini crate + Kani", "items": ex.items,
             "prelude": "units/vm/prelude.rs", "prelude_sha256": sha256(prelude), "harness_sha256": sha256(harness),
-            "extractor_edits": "D1; D2 (feature jit2 on; cut_sequence is empty without feature `dynamic`); D3 (methods of the several `impl VmCore` blocks gathered into one impl); D6 (SUBIMMEDIATE match-arm body wrapped into a method returning Result<()>)",
+            "extractor_edits": "D1; D2 (feature jit2 on; cut_sequence is empty without feature `dynamic`); D3 (methods of the several `impl VmCore` blocks gathered into one impl); D6 (SUBIMMEDIATE, TCOJMP, IF, JMP, POPSINGLE match-arm bodies wrapped into methods returning Result<()>)",
             "assumption_scan": scan_assumptions(harness, "units/vm/harness.rs") + scan_assumptions(prelude, "units/vm/prelude.rs")}
     return crate, meta
 
@@ -116,6 +123,10 @@ OBS = {
                                 contract="MOVEREADLOCAL i pushes stack[sp+i] and leaves #<void> in exactly that slot"),
     "local_set_contract": dict(props=["C01"], kind="bounded", bound="stack of 4, index <= 2", functions=["VmCore::handle_set_local", "VmCore::handle_set_local_value"],
                                contract="SETLOCAL i replaces exactly stack[sp+i] by the popped value and pushes the old one (a variable evaluates to the value most recently assigned)"),
+    "if_jmp_arm_contract": dict(props=["C01"], kind="bounded", bound="operand stack of 5 symbolic values + the test value (any boolean, integer or void); any 24-bit target", functions=["VmCore::vm (IF arm)", "VmCore::vm (JMP arm)", "VmCore::vm (POPSINGLE arm)", "SteelVal::is_truthy"],
+        contract="IF pops exactly the test value, continues at ip+1 when it is anything but #f and at the payload otherwise; JMP continues at the payload and touches no value; POPSINGLE discards exactly the top value; everything below is untouched - together with cgen's layout [test][IF else][then][JMP end][else] this is the reference semantics of `if`"),
+    "let_end_scope_contract": dict(props=["C01"], kind="bounded", bound="operand stack of 5 symbolic values, frame offset 0-2, let with 0-2 variables", functions=["let_end_scope_handler", "let_end_scope_handler_with_payload", "VmCore::get_offset"],
+        contract="LETENDSCOPE k removes exactly the let's variables (the slots from frame offset + k up to, not including, the top) and keeps the body's value on top; everything below the let is untouched; ip advances by one"),
     "u24_roundtrip_contract": dict(props=["C01"], kind="proof", functions=["u24::from_u32", "u24::to_u32", "u24::from_usize", "u24::to_usize", "u24::add", "DenseInstruction::new"],
                                    contract="for every n < 2^24: to(from(n)) == n (operands, jump targets and arities survive encoding); a + b exact below 2^24"),
     "subimmediate_arm_contract": dict(props=["C10", "C01"], kind="proof", functions=["VmCore::vm (OpCode::SUBIMMEDIATE arm)"],
